@@ -110,6 +110,11 @@ Nest3Cfgs ==
 FlowRetryCfgs == {[Base EXCEPT !.nodes = <<Leaf(TRUE, f, 1), Leaf(FALSE, FALSE, 1), [FlowNode(1) EXCEPT !.N = 2], FlowNode(s)>>, !.top = 4,
                    !.conns = <<ConnSeq(3, << <<1, 1>>, <<2, 1>> >>, t) \o ConnSeq(4, << <<3, 1>> >>, <<u>>)>>, !.acts = {1}, !.outs = {"ok", "err"}, !.flowretry = TRUE] :
                      f \in BOOLEAN, s \in {3}, t \in [1..2 -> {-1, 0, 2}], u \in {-1, 0}}
+\* dynamic wiring: some of the Connect calls are made from inside post callbacks while the flow runs
+DynWireCfgs ==
+  {[Base EXCEPT !.nodes = <<Leaf(TRUE, FALSE, 1), Leaf(FALSE, FALSE, 1), FlowNode(1)>>, !.top = 3,
+                !.conns = <<ConnSeq(3, << <<1, 1>>, <<2, 1>>, <<1, 1>>, <<2, 1>> >>, tg)>>, !.acts = {1}, !.outs = {"ok"}] @@ [dyn |-> TRUE, pre |-> <<k>>] :
+      tg \in [1..4 -> {-1, 0, 1, 2}], k \in 0..2}
 \* a retry budget below one (WithMaxRetries(0), WithMaxRetries(-1)): the attempt loop never runs, no fallback, post receives nil.
 \* Outside every property (they are quantified over budgets >= 1); modelled because the code allows it.
 ZeroBudgetCfgs ==
@@ -141,6 +146,7 @@ Cfgs == CASE Family = "single"       -> SingleCfgs
           [] Family = "nilstart"     -> NilStartCfgs
           [] Family = "flowretry"    -> FlowRetryCfgs
           [] Family = "zerobudget"   -> ZeroBudgetCfgs
+          [] Family = "dynwire"      -> DynWireCfgs
 
 MCInit == \E c \in Cfgs : InitWith(c)
 MCSpec == MCInit /\ [][Next]_vars
